@@ -180,8 +180,12 @@ bool StreamAckManager::handleStanza(const QDomElement &stanza)
         return true;
     }
 
+    // Only stanzas received while stream management is active belong to the session whose
+    // handled-count is reported in <a/> and <resume/> (XEP-0198: counting starts with <enabled/>
+    // and continues with <resumed/>). Stanzas of an intermediate session without stream
+    // management must not advance the counter of a session that can still be resumed.
     auto tagName = stanza.tagName();
-    if (tagName == u"message" || tagName == u"presence" || tagName == u"iq") {
+    if (m_enabled && (tagName == u"message" || tagName == u"presence" || tagName == u"iq")) {
         m_lastIncomingSequenceNumber++;
     }
     return false;
